@@ -33,6 +33,7 @@ import (
 	"hash/fnv"
 	"math"
 	"os"
+	"os/exec"
 	"path/filepath"
 	"runtime"
 	"sort"
@@ -130,26 +131,26 @@ b := [1, 2]
 // ---- the gate: a Go function in which "running" threads are blocked
 
 type c16Case struct {
-	dbg     util.ECALDebugger
-	gs      parser.Scope
-	gsGiven bool
-	erps    []*interpreter.ECALRuntimeProvider
-	gate    chan struct{}
-	inGate  sync.Map // tid -> bool
-	done    map[uint64]chan struct{}
-	thrPan  atomic.Value
-	ready   bool
-	stuck   bool // Status does not answer any more
-	hung    bool // a command did not return
-	refsKnown string // set by scenarios that install the references themselves
-	pending chan string // an inject that has not returned (yet)
+	dbg       util.ECALDebugger
+	gs        parser.Scope
+	gsGiven   bool
+	erps      []*interpreter.ECALRuntimeProvider
+	gate      chan struct{}
+	inGate    sync.Map // tid -> bool
+	done      map[uint64]chan struct{}
+	thrPan    atomic.Value
+	ready     bool
+	stuck     bool        // Status does not answer any more
+	hung      bool        // a command did not return
+	refsKnown string      // set by scenarios that install the references themselves
+	pending   chan string // an inject that has not returned (yet)
 	sharedErp *interpreter.ECALRuntimeProvider
-	viaCLI  bool // commands go through CLIDebugInterpreter.Handle
-	cli     *tool.CLIDebugInterpreter
-	mu      sync.Mutex
+	viaCLI    bool // commands go through CLIDebugInterpreter.Handle
+	cli       *tool.CLIDebugInterpreter
+	mu        sync.Mutex
 }
 
-var c16Cur atomic.Value // *c16Case
+var c16Cur atomic.Value  // *c16Case
 var c16Cases sync.Map    // global scope -> *c16Case, while the case is running
 var c16Recorded sync.Map // payload -> result of the recording run (see emit)
 
@@ -783,6 +784,57 @@ func c16Payload(scn string, gsGiven bool, obs0 string, steps []c16Step) string {
 	return strings.Join(f, " ")
 }
 
+// c16Cyclic: `describe` of a thread that sees a list containing itself (known finding
+// describe-cyclic-value: scope.ToJSONObject falls back to fmt.Sprintf("%#v") which never ends — a
+// fatal stack overflow that no recover() catches). The dangerous part runs in a child process.
+func c16Cyclic(child bool) string {
+	if !child {
+		cmd := exec.Command(os.Args[0], "C16", "-one", "cyclic! 1 0")
+		cmd.Env = append(os.Environ(), "GOMEMLIMIT=1GiB")
+		done := make(chan struct{})
+		var out []byte
+		var err error
+		go func() { out, err = cmd.CombinedOutput(); close(done) }()
+		select {
+		case <-done:
+		case <-time.After(120 * time.Second):
+			cmd.Process.Kill()
+			return "ok HANG"
+		}
+		first := ""
+		for _, l := range strings.Split(string(out), "\n") {
+			if strings.HasPrefix(l, "status=") {
+				first = strings.TrimPrefix(l, "status=")
+			}
+			if strings.HasPrefix(l, "describe=") {
+				return first + " " + strings.TrimPrefix(l, "describe=")
+			}
+		}
+		if err != nil {
+			return first + " CRASH"
+		}
+		return first + " NOOUTPUT"
+	}
+	c := &c16Case{gate: make(chan struct{}), done: map[uint64]chan struct{}{}, gsGiven: true}
+	c.gs = scope.NewScope(scope.GlobalScope)
+	c.dbg = interpreter.NewECALDebugger(c.gs)
+	c16Cur.Store(c)
+	c16Cases.Store(c.gs, c)
+	c.dbg.SetBreakPoint("cyc", 3)
+	c.start(1, "cyc", "a := [1]\na[0] := a\nb := 2\nx.gate()\n")
+	for i := 0; i < 100000; i++ {
+		if tt := c.threadTable(); tt != nil && tt["1"] != nil && tt["1"]["threadRunning"] == false {
+			break
+		}
+		time.Sleep(50 * time.Microsecond)
+	}
+	fmt.Println("status=" + c.command("status"))
+	os.Stdout.Sync()
+	cl := c.command("describe 1")
+	fmt.Println("describe=" + cl)
+	return "child-done"
+}
+
 // c16Conc: a thread is suspended in a long straight-line program; goroutine A issues
 // `cont 1 stepin` again and again (waiting for the thread to stop on the next line in
 // between), goroutine B sets and removes a breakpoint without pause (write lock), goroutine
@@ -793,6 +845,8 @@ func c16Conc() string {
 	// which `describe 1` hands out (live slices of the debugger) change all the time
 	var sb strings.Builder
 	sb.WriteString("func h(y) {\n    z := y + 1\n    return z\n}\nfunc f(x) {\n    w := h(x)\n    return w\n}\n")
+	// only called by injected expressions: long enough for two evaluations to overlap
+	sb.WriteString("func slow(n) {\n    k := 0\n    for i in range(1, n) {\n        k := k + h(i)\n    }\n    return k\n}\nfunc slow2(n) {\n    return slow(n) + 1\n}\n")
 	for i := 0; i < 400; i++ {
 		sb.WriteString("a := f(1)\nb := 2\n")
 	}
@@ -852,38 +906,92 @@ func c16Conc() string {
 	stop := make(chan struct{})
 	finished := make(chan struct{})
 	var wg sync.WaitGroup
-	wg.Add(2)
-	go func() { // B: writers
-		defer wg.Done()
-		for {
-			select {
-			case <-stop:
-				return
-			default:
+	// phase 0: thread 1 waits at its first statement; two clients inject expressions that call
+	// functions of the debugged program at the same time (each evaluation must be a thread of its own)
+	for i := 0; i < 4; i++ { // past the four function declarations
+		note(class("cont 1 stepover"))
+		for j := 0; j < 200000; j++ {
+			d, _ := c.dbg.Describe(1).(map[string]interface{})
+			if d == nil || d["threadRunning"] == false {
+				break
 			}
-			note(class("break prog:900"))
-			note(class("rmbreak prog:900"))
-			note(class("disablebreak prog:901"))
-			note(class("breakonstart false"))
-			note(class("extract 1 a dst"))
-			note(class("inject 1 b 1+1"))
+			time.Sleep(5 * time.Microsecond)
 		}
-	}()
-	go func() { // C: readers
-		defer wg.Done()
-		for {
-			select {
-			case <-stop:
-				return
-			default:
+	}
+	var w0 sync.WaitGroup
+	for k := 0; k < 2; k++ {
+		fn, v := []string{"slow2(15)", "slow(15)"}[k], []string{"a", "b"}[k]
+		w0.Add(1)
+		go func() {
+			defer w0.Done()
+			for i := 0; i < 60; i++ {
+				note(class("inject 1 " + v + " " + fn))
 			}
-			note(class("status"))
-			note(class("describe 1"))
-			note(class("lockstate"))
-			note(class("describe 3"))
-			note(class("nosuchcmd 1"))
-		}
-	}()
+		}()
+	}
+	w0.Wait()
+	// every command kind comes from at least two goroutines at once (a command also races with itself)
+	wg.Add(8)
+	for k := 0; k < 2; k++ {
+		fn, v := []string{"slow2(15)", "slow(15)"}[k], []string{"a", "b"}[k]
+		go func() { // X, Y: injects whose expressions call functions of the debugged program
+			defer wg.Done()
+			for {
+				select {
+				case <-stop:
+					return
+				default:
+				}
+				note(class("inject 1 " + v + " " + fn))
+				note(class("extract 1 " + v + " dst" + v))
+			}
+		}()
+		go func() { // second and third source of `cont` for the thread goroutine A steps
+			defer wg.Done()
+			for {
+				select {
+				case <-stop:
+					return
+				default:
+				}
+				note(class("cont 1 stepover"))
+				time.Sleep(50 * time.Microsecond)
+			}
+		}()
+	}
+	for k := 0; k < 2; k++ {
+		go func() { // B: writers
+			defer wg.Done()
+			for {
+				select {
+				case <-stop:
+					return
+				default:
+				}
+				note(class("break prog:900"))
+				note(class("rmbreak prog:900"))
+				note(class("disablebreak prog:901"))
+				note(class("breakonstart false"))
+				note(class("extract 1 a dst"))
+				note(class("inject 1 b 1+1"))
+			}
+		}()
+		go func() { // C: readers
+			defer wg.Done()
+			for {
+				select {
+				case <-stop:
+					return
+				default:
+				}
+				note(class("status"))
+				note(class("describe 1"))
+				note(class("lockstate"))
+				note(class("describe 3"))
+				note(class("nosuchcmd 1"))
+			}
+		}()
+	}
 	go func() { // A
 		for i := 0; i < 300; i++ {
 			how := []string{"stepin", "stepover", "STEPOVER", "StepIn"}[i%4]
@@ -965,6 +1073,12 @@ func c16Run(payload string) string {
 	}
 	if f[0] == "telnet" {
 		return "R:" + c16Telnet()
+	}
+	if f[0] == "cyclic" {
+		return "R:" + c16Cyclic(false)
+	}
+	if f[0] == "cyclic!" {
+		return c16Cyclic(true)
 	}
 	if r, ok := c16Recorded.LoadAndDelete(payload); ok {
 		return "R:" + r.(string)
@@ -1089,6 +1203,16 @@ func c16Gen(g *Gen) {
 	}
 	sort.Strings(cmds)
 	cmds = append(cmds, "nosuchcmd")
+	// words HandleInput itself compares the first word with (none in the code as it is): a command
+	// word the table does not know is part of the vocabulary all the same
+	if lits, err := c16DispatchLiterals(); err == nil {
+		for _, l := range lits {
+			if _, ok := interpreter.DebugCommandsMap[l]; !ok && l != "" && !strings.ContainsAny(l, " \t") {
+				cmds = append(cmds, l)
+				g.Count("extra-dispatch-word")
+			}
+		}
+	}
 
 	// directed: the inputs of the repaired defects first
 	emit("none", true, "lockstate")
@@ -1184,6 +1308,16 @@ func c16Gen(g *Gen) {
 			g.Emit("not-in-this-shard")
 		} else {
 			g.Emit(fmt.Sprintf("telnet 1 %d", i))
+		}
+	}
+	// known finding describe-cyclic-value (only emitted when the finding is listed: C16_CYCLIC)
+	if os.Getenv("C16_CYCLIC") != "" {
+		g.Count("cyclic")
+		k++
+		if k%sn != si || k < start {
+			g.Emit("not-in-this-shard")
+		} else {
+			g.Emit("cyclic 1 0")
 		}
 	}
 	// commands from two goroutines at once
@@ -1364,27 +1498,82 @@ func c16Tool(args []string) int {
 			ty := strings.TrimPrefix(text(d.Recv.List[0].Type), "*")
 			// the argument-count test: a leading `if <condition over len(args)> { …; return … }`.
 			// The condition is EVALUATED for 0..5 arguments (not compared as text); "?" = not understood
+			// no statement of the body looks at the number of arguments before it uses them: nothing rejected.
+			// A leading statement that does but is not understood: "??????" (not established).
 			table := "FFFFFF"
-			for _, st := range d.Body.List {
-				if is, ok := st.(*ast.IfStmt); ok && strings.Contains(text(is.Cond), "len(args)") {
-					if len(is.Body.List) > 0 {
-						if _, ok := is.Body.List[len(is.Body.List)-1].(*ast.ReturnStmt); ok {
-							table = ""
-							for n := 0; n <= 5; n++ {
-								v, ok := c16EvalBool(is.Cond, d.Type.Params, n)
-								switch {
-								case !ok:
-									table += "?"
-								case v:
-									table += "T"
-								default:
-									table += "F"
-								}
+			argName := ""
+			if d.Type.Params != nil {
+				for _, f := range d.Type.Params.List {
+					if at, ok := f.Type.(*ast.ArrayType); ok && at.Len == nil {
+						for _, nm := range f.Names {
+							argName = nm.Name
+						}
+					}
+				}
+			}
+			mentions := func(n ast.Node) bool {
+				found := false
+				if n == nil {
+					return false
+				}
+				ast.Inspect(n, func(x ast.Node) bool {
+					if c, ok := x.(*ast.CallExpr); ok {
+						if id, ok := c.Fun.(*ast.Ident); ok && id.Name == "len" && len(c.Args) == 1 {
+							if a, ok := c.Args[0].(*ast.Ident); ok && a.Name == argName {
+								found = true
 							}
 						}
 					}
+					return true
+				})
+				return found
+			}
+			for _, st := range d.Body.List {
+				is, isIf := st.(*ast.IfStmt)
+				if sw, ok := st.(*ast.SwitchStmt); ok && (mentions(sw.Init) || mentions(sw.Tag) || mentions(sw.Body)) {
+					table = "??????"
 					break
 				}
+				if !isIf || !(mentions(is.Init) || mentions(is.Cond)) {
+					if mentions(st) {
+						table = "??????" // the count is looked at somewhere else first
+						break
+					}
+					continue
+				}
+				leaves := false
+				if len(is.Body.List) > 0 {
+					_, leaves = is.Body.List[len(is.Body.List)-1].(*ast.ReturnStmt)
+				}
+				if !leaves {
+					break // an optional argument (breakonstart): nothing is rejected
+				}
+				env := map[string]ast.Expr{}
+				if as, ok := is.Init.(*ast.AssignStmt); ok && len(as.Lhs) == len(as.Rhs) {
+					for k := range as.Lhs {
+						if id, ok := as.Lhs[k].(*ast.Ident); ok {
+							env[id.Name] = as.Rhs[k]
+						}
+					}
+				} else if is.Init != nil {
+					table = "??????"
+					break
+				}
+				c16Env = env
+				table = ""
+				for n := 0; n <= 5; n++ {
+					v, ok := c16EvalBool(is.Cond, d.Type.Params, n)
+					switch {
+					case !ok:
+						table += "?"
+					case v:
+						table += "T"
+					default:
+						table += "F"
+					}
+				}
+				c16Env = nil
+				break
 			}
 			checks[ty] = table
 		}
@@ -1459,8 +1648,15 @@ func c16EvalBool(e ast.Expr, params *ast.FieldList, n int) (bool, bool) {
 	return false, false
 }
 
+// variables bound by the Init statement of the argument-count test (`if n := len(args); n != 2`)
+var c16Env map[string]ast.Expr
+
 func c16EvalInt(e ast.Expr, params *ast.FieldList, n int) (int, bool) {
 	switch e := e.(type) {
+	case *ast.Ident:
+		if b, ok := c16Env[e.Name]; ok {
+			return c16EvalInt(b, params, n)
+		}
 	case *ast.ParenExpr:
 		return c16EvalInt(e.X, params, n)
 	case *ast.BasicLit:
